@@ -170,7 +170,12 @@ func serializeURL(value string) string {
 		case ')':
 			mapped = `\)`
 		default:
-			mapped = string(c)
+			if c < 0x20 || c == 0x7F {
+				// non-printable code points are not allowed in an unquoted url
+				mapped = fmt.Sprintf("\\%X ", c)
+			} else {
+				mapped = string(c)
+			}
 		}
 		chuncks.WriteString(mapped)
 	}
